@@ -3,7 +3,7 @@
    the source, and no chain of the sub-ontology is shorter (its links are links of the source). *)
 From Coq Require Import Lia.
 From HpoV Require Import Gen.Consts Model.Base Model.Group Model.Onto Model.Query Model.SubOnt
-  Proofs.GroupP Proofs.BaseP Proofs.ClosureP Proofs.DistP Proofs.SubP Proofs.SubLinksP.
+  Proofs.GroupP Proofs.BaseP Proofs.ClosureP Proofs.DistP Proofs.QgoodP Proofs.SubP Proofs.SubLinksP.
 
 Lemma sub_ids_leaf_path o root : forall leaves acc ids l, foldM (leaf_step o root) leaves acc = Ok ids -> In l leaves ->
   exists lt path, ar_get_unchecked l (o_arena o) = Ok lt /\ path_anc (q_fuel o) o lt root = Ok (Some path).
@@ -66,4 +66,44 @@ Proof.
   split.
   - intros l Hin. apply K', (K l Hin).
   - intros Hne. destruct leaves as [|l leaves']; [congruence|]. apply K', (K l (or_introl eq_refl)).
+Qed.
+
+(* ---------------- the order (and repetition) of the leaves does not matter ---------------- *)
+
+Lemma leaf_steps_sorted o root leaves : forall acc ids, sorted acc -> foldM (leaf_step o root) leaves acc = Ok ids -> sorted ids.
+Proof.
+  induction leaves as [|l ls IH]; intros acc ids Sa Hf; cbn [foldM] in Hf; [injection Hf as <-; exact Sa|].
+  unfold leaf_step at 1 in Hf. destruct (ar_get_unchecked l (o_arena o)) as [lt| | |]; cbn [bind] in Hf; try discriminate.
+  destruct (path_anc (q_fuel o) o lt root) as [[path|]| | |]; cbn [bind] in Hf; try discriminate.
+  apply (IH (fold_left g_add path (g_add acc (t_id lt))) ids); [|exact Hf]. apply fold_g_add_sorted, g_add_sorted, Sa.
+Qed.
+
+Lemma leaf_steps_succeed o root leaves : forall acc,
+  (forall l, In l leaves -> exists lt path, ar_get_unchecked l (o_arena o) = Ok lt /\ path_anc (q_fuel o) o lt root = Ok (Some path)) ->
+  exists ids, foldM (leaf_step o root) leaves acc = Ok ids.
+Proof.
+  induction leaves as [|l ls IH]; intros acc H; cbn [foldM]; [eexists; reflexivity|].
+  destruct (H l (or_introl eq_refl)) as (lt & path & Hg & Hp). unfold leaf_step at 1. rewrite Hg. cbn [bind]. rewrite Hp. cbn [bind].
+  apply IH. intros l' Hl'. apply H. right. exact Hl'.
+Qed.
+
+(* two leaf collections with the same members (any order, any multiplicity) retain the same terms *)
+Theorem sub_ids_same_members o root leaves leaves' ids : (forall l, In l leaves <-> In l leaves') ->
+  sub_ids o root leaves = Ok ids -> sub_ids o root leaves' = Ok ids.
+Proof.
+  intros Hm H. rewrite sub_ids_unfold in *.
+  destruct (leaf_steps_succeed o root leaves' []) as [ids' H'].
+  { intros l Hl. apply (sub_ids_leaf_path o root leaves [] ids l H), Hm, Hl. }
+  rewrite H'. f_equal. apply sorted_ext; [apply (leaf_steps_sorted o root leaves' [] ids' ltac:(constructor) H')|apply (leaf_steps_sorted o root leaves [] ids ltac:(constructor) H)|].
+  intros x. rewrite (sub_ids_spec o root leaves' [] ids' H' x), (sub_ids_spec o root leaves [] ids H x). split.
+  - intros [Hx|(l & lt & path & Hl & Hr)]; [left; exact Hx|right; exists l, lt, path; split; [apply Hm, Hl|exact Hr]].
+  - intros [Hx|(l & lt & path & Hl & Hr)]; [left; exact Hx|right; exists l, lt, path; split; [apply Hm, Hl|exact Hr]].
+Qed.
+
+Theorem sub_ontology_same_members icf o root leaves leaves' o' : (forall l, In l leaves <-> In l leaves') ->
+  sub_ontology icf o root leaves = Ok o' -> sub_ontology icf o root leaves' = Ok o'.
+Proof.
+  intros Hm H. unfold sub_ontology in *.
+  destruct (sub_ids o root leaves) as [ids| | |] eqn:E; cbn [bind] in H; try discriminate.
+  rewrite (sub_ids_same_members o root leaves leaves' ids Hm E). cbn [bind]. exact H.
 Qed.
